@@ -144,6 +144,8 @@ type Binding struct {
 	Expr     ast.Expr
 	Pkg      *packages.Package
 	Src      string
+	IndexVar  string     // pointwise binding of a map-typed model field: Field[IndexVar] = Expr
+	Footprint []ast.Expr // locations the bound expression depends on (defaults to the expression itself)
 }
 
 type Axiom struct {
@@ -597,11 +599,23 @@ func (s *Specs) loadSpecFile(w *World, path string, pkg *packages.Package, trust
 			cur = nil
 		case "bind":
 			// bind (r *T) Iface.Field = expr
-			m := regexp.MustCompile(`^\((\w+)\s+(\S+)\)\s+(\S+)\.(\w+)\s+=\s+(.+)$`).FindStringSubmatch(rest)
+			m := regexp.MustCompile(`^\((\w+)\s+(\S+)\)\s+(\S+)\.(\w+)(?:\[(\w+)\])?\s+=\s+(.+)$`).FindStringSubmatch(rest)
 			if m == nil {
-				return fail(l, "bind (r *T) Iface.Field = expr")
+				return fail(l, "bind (r *T) Iface.Field[i] = expr [footprint a, b]")
 			}
-			e, err := parseExprAt(m[5], path, l.line)
+			exprSrc := m[6]
+			var foot []ast.Expr
+			if i := strings.Index(exprSrc, " footprint "); i >= 0 {
+				for _, part := range splitTopLevel(exprSrc[i+len(" footprint "):], ',') {
+					fe, err := parseExprAt(part, path, l.line)
+					if err != nil {
+						return err
+					}
+					foot = append(foot, fe)
+				}
+				exprSrc = strings.TrimSpace(exprSrc[:i])
+			}
+			e, err := parseExprAt(exprSrc, path, l.line)
 			if err != nil {
 				return err
 			}
@@ -611,7 +625,7 @@ func (s *Specs) loadSpecFile(w *World, path string, pkg *packages.Package, trust
 			if ptr {
 				conc = "*" + conc
 			}
-			s.Bindings = append(s.Bindings, &Binding{Concrete: conc, RecvName: m[1], Iface: qualifyTypeName(m[3], pkg, w), Field: m[4], Expr: e, Pkg: pkg, Src: rest})
+			s.Bindings = append(s.Bindings, &Binding{Concrete: conc, RecvName: m[1], Iface: qualifyTypeName(m[3], pkg, w), Field: m[4], Expr: e, Pkg: pkg, Src: rest, IndexVar: m[5], Footprint: foot})
 			cur = nil
 		case "axiom", "lemma":
 			c, err := parseClause(rest, path, l.line)
